@@ -26,7 +26,9 @@ impl Context {
     fn define(&mut self, name: &str) -> (r: Result<Symbol, Error>)
         requires ctx_view(*old(self)).len() >= 1
         ensures r is Ok ==> ctx_after_define(*old(self), name@, *final(self)) && r->Ok_0 == ctx_define_symbol(*old(self), name@) && flat_len(ctx_view(*old(self))) <= 0xFFFF,
-                r is Err ==> *final(self) == *old(self)
+                r is Err ==> *final(self) == *old(self),
+                // DERIVED (lemma_define_keeps_size, symbols_spec.rs): follows from the Ok clause above
+                (r is Ok && ctx_sized(*old(self))) ==> ctx_sized(*final(self)) && ctx_view(*final(self)).len() == ctx_view(*old(self)).len()
     { unimplemented!() }
     //  O09.res c09_resolve_two_scopes (Kani, bounded: two scopes of 0..=2 names): the answer is slot_of of the view
     #[verifier::external_body]
@@ -34,16 +36,6 @@ impl Context {
 }
 
 // ---- what the slot function means (lemmas over the contracts above; all sizes) -----------------------------
-/// a slot is always one of the context's slots
-pub proof fn lemma_slot_in_range(v: Scopes, name: Seq<char>)
-    ensures slot_of(v, name) matches Some(i) ==> 0 <= i < flat_len(v)
-    decreases v.len()
-{
-    if v.len() > 0 {
-        lemma_last_pos_range(v.last(), name);
-        lemma_slot_in_range(v.drop_last(), name);
-    }
-}
 /// O09.L1  an inner block may declare the same name without disturbing the outer variable: inside a block a name
 /// means the block's own (last) declaration if it has one - a FRESH slot beyond every outer slot - and otherwise
 /// exactly what it meant outside
@@ -85,6 +77,7 @@ impl SymbolTable {
     pub fn new_context(&mut self)
         requires sym_wf(*old(self))
         ensures
+            sym_max_size(*final(self)) == 0,
             sym_globals_kept(*old(self), *final(self)),
             final(self).contexts@.len() == old(self).contexts@.len() + 1, final(self).contexts@.drop_last() =~= old(self).contexts@,
             ctx_is_new(final(self).contexts@.last(), Scope::Local),
@@ -108,6 +101,7 @@ impl SymbolTable {
     pub fn leave_context(&mut self) -> (n: usize)
         requires sym_wf(*old(self)), sym_contexts(*old(self)) >= 2
         ensures
+            sym_max_size(*final(self)) == ctx_max_size(old(self).contexts@[old(self).contexts@.len() - 2]),
             sym_globals_kept(*old(self), *final(self)),
             final(self).contexts@ == old(self).contexts@.drop_last(), n == sym_max_size(*old(self)),
             sym_wf(*final(self)), sym_contexts(*final(self)) == sym_contexts(*old(self)) - 1,
@@ -137,11 +131,15 @@ impl SymbolTable {
     pub fn resolve(&mut self, name: &str) -> (r: Option<Symbol>)
         requires sym_wf(*old(self))
         ensures
+            // O02.slot: a name found in the current context has a slot below the size that context reports
+            sym_in_current(*old(self), name@) ==> r is Some && (r->Some_0.index as int) < sym_max_size(*old(self)),
+            sym_max_size(*final(self)) == sym_max_size(*old(self)),
             sym_globals_kept(*old(self), *final(self)),
             //@VACUITY
             final(self).contexts@ == old(self).contexts@,
             r == sym_resolve(*old(self), name@),
     {
+//@GHOST before="return symbol;" proof { lemma_current_slot_in_range(*old(self), name@); }
 //@BODY file=symbols.rs fn=resolve impl=SymbolTable sig="pub fn resolve(&mut self, name: &str) -> Option<Symbol>" rules="R4"
     }
 
@@ -150,6 +148,9 @@ impl SymbolTable {
     pub fn define(&mut self, name: &str) -> (r: Result<Symbol, Error>)
         requires sym_wf(*old(self))
         ensures
+            // O02.slot: the new slot lies below the size the context reports from now on; the size only grows
+            r is Ok ==> (r->Ok_0.index as int) < sym_max_size(*final(self)) && sym_max_size(*final(self)) == sym_max_size(*old(self)) + 1 && sym_in_current(*final(self), name@),
+            r is Err ==> sym_max_size(*final(self)) == sym_max_size(*old(self)),
             sym_globals_kept(*old(self), *final(self)),
             //@VACUITY
             sym_others_same(*old(self), *final(self)), sym_wf(*final(self)),
@@ -165,6 +166,7 @@ impl SymbolTable {
     pub fn enter_scope(&mut self)
         requires sym_wf(*old(self))
         ensures
+            sym_max_size(*final(self)) == sym_max_size(*old(self)),
             sym_globals_kept(*old(self), *final(self)),
             //@VACUITY
             sym_others_same(*old(self), *final(self)), sym_wf(*final(self)),
@@ -178,6 +180,7 @@ impl SymbolTable {
             assert(a.len() == b.len());
             assert forall|i: int| 0 <= i < a.len() implies a[i] =~= b[i] by {}
             assert(a =~= b);
+            lemma_flat_len_push_empty(ctx_view(old(self).contexts@.last()));
             lemma_current_changed(*old(self), *self);
         }
     }
@@ -187,6 +190,7 @@ impl SymbolTable {
     pub fn leave_scope(&mut self)
         requires sym_wf(*old(self)), sym_depth(*old(self)) >= 2
         ensures
+            sym_max_size(*final(self)) == sym_max_size(*old(self)),
             sym_globals_kept(*old(self), *final(self)),
             //@VACUITY
             sym_others_same(*old(self), *final(self)), sym_wf(*final(self)),
@@ -200,6 +204,7 @@ impl SymbolTable {
             assert(a.len() == b.len());
             assert forall|i: int| 0 <= i < a.len() implies a[i] =~= b[i] by {}
             assert(a =~= b);
+            lemma_flat_len_drop_last(ctx_view(old(self).contexts@.last()));
             lemma_current_changed(*old(self), *self);
         }
     }
@@ -224,16 +229,21 @@ impl SymbolTable {
             sym_wf(*final(self)), sym_contexts(*final(self)) == 1, sym_depth(*final(self)) == 1,
     {
 //@BODY file=symbols.rs fn=reset_to_global impl=SymbolTable sig="pub fn reset_to_global(&mut self, keep: usize)" rules="R4"
+        proof {
+            let v0 = ctx_view(old(self).contexts@[0]);
+            lemma_flat_len_first(v0);
+            assert(flat_len(ctx_view(self.contexts@[0])) == ctx_view(self.contexts@[0])[0].len());
+        }
     }
 }
 
 /// only the current context changed (and it still has a scope): well-formedness and the measures of the enclosing
 /// contexts carry over
 pub proof fn lemma_current_changed(a: SymbolTable, b: SymbolTable)
-    requires sym_wf(a), sym_others_same(a, b), ctx_view(b.contexts@.last()).len() >= 1
+    requires sym_wf(a), sym_others_same(a, b), ctx_view(b.contexts@.last()).len() >= 1, ctx_sized(b.contexts@.last())
     ensures sym_wf(b), sym_outer(b) == sym_outer(a), sym_contexts(b) == sym_contexts(a)
 {
-    assert forall|i: int| 0 <= i < b.contexts@.len() implies ctx_view(#[trigger] b.contexts@[i]).len() >= 1 by {
+    assert forall|i: int| 0 <= i < b.contexts@.len() implies ctx_view(#[trigger] b.contexts@[i]).len() >= 1 && ctx_sized(b.contexts@[i]) by {
         if i < b.contexts@.len() - 1 { assert(b.contexts@.drop_last()[i] == a.contexts@.drop_last()[i]); }
     }
     let x = sym_outer(b); let y = sym_outer(a);
